@@ -2,6 +2,7 @@ package polling
 
 import (
 	"bytes"
+	"errors"
 	"fmt"
 	"io"
 	"net/http"
@@ -150,6 +151,12 @@ func (t *ServerTransport) handleDataRequest(w http.ResponseWriter, r *http.Reque
 		return
 	}
 
+	if t.maxHTTPBufferSize > 0 {
+		// The size may be undeclared (chunked body) or declared wrongly:
+		// never read more than the limit.
+		r.Body = http.MaxBytesReader(w, r.Body, t.maxHTTPBufferSize)
+	}
+
 	var (
 		packets []*parser.Packet
 		jsonp   = r.URL.Query().Get("j")
@@ -160,14 +167,14 @@ func (t *ServerTransport) handleDataRequest(w http.ResponseWriter, r *http.Reque
 	if jsonp == "" {
 		packets, err = parser.DecodePayloads(r.Body)
 		if err != nil {
-			w.WriteHeader(http.StatusBadRequest)
+			w.WriteHeader(bodyErrorStatus(err))
 			t.close(err)
 			return
 		}
 	} else {
 		err = r.ParseForm()
 		if err != nil {
-			w.WriteHeader(http.StatusBadRequest)
+			w.WriteHeader(bodyErrorStatus(err))
 			t.close(err)
 			return
 		}
@@ -195,6 +202,14 @@ func (t *ServerTransport) handleDataRequest(w http.ResponseWriter, r *http.Reque
 	wh.Set("Content-Length", "2")
 	w.WriteHeader(200)
 	w.Write(ok)
+}
+
+func bodyErrorStatus(err error) int {
+	var tooLarge *http.MaxBytesError
+	if errors.As(err, &tooLarge) {
+		return http.StatusRequestEntityTooLarge
+	}
+	return http.StatusBadRequest
 }
 
 func (t *ServerTransport) Discard() {
